@@ -117,15 +117,22 @@ def gen_params(rng, tier):
     if ta_mode == "guess":
         present.remove("yt")
     time_axis = {"none": "", "name": "xt", "guess": True}[ta_mode]
+    if ta_mode == "none" and rng.random() < 0.1:
+        # a frame of nullable columns only, with rows that are missing in EVERY column (padding rows of an outer join): such a
+        # row is still a row, counted by every histogram (in its nanflow)
+        present = ["xf", "zf"]
+        for r in set(rng.randrange(n) for _ in range(rng.randint(1, 3))):
+            cols["xf"][r] = None
+            cols["zf"][r] = None
     # features
     feats = []
     if rng.random() < 0.12:
         feats = None  # all columns (vs the time axis when there is one)
-        present = rng.sample(present, rng.randint(2, 5)) + (["xt"] if ta_mode != "none" else [])
+        present = rng.sample(present, rng.randint(2, min(5, len(present)))) + (["xt"] if ta_mode != "none" else [])
         present = sorted(set(present), key=ALL_COLS.index)
     else:
         for _ in range(rng.randint(2, 7)):
-            d = rng.choice([1, 1, 2, 2, 3])
+            d = min(rng.choice([1, 1, 2, 2, 3]), len(present))
             f = rng.sample(present, d)
             if ta_mode != "none" and rng.random() < 0.5 and "xt" not in f:
                 f = (["xt"] + f)[:3]
